@@ -213,6 +213,14 @@ class Scn:
                             seen.add(id(k))
                             objs.append(k)
         objs.extend([self.spec, self.prefix_spec, self.other_spec])
+        # the payload objects a treespec owns (key lists, custom metadata, entries) as reported by its GC traversal:
+        # a reference to them parked in some engine-side buffer would otherwise be invisible
+        import gc as _gc
+        for sp in (self.spec, self.prefix_spec, self.other_spec):
+            for x in _gc.get_referents(sp):
+                if id(x) not in seen and not isinstance(x, type):
+                    seen.add(id(x))
+                    objs.append(x)
         for _, _, f in self.reg.live:
             objs.append(f)
         return objs
